@@ -26,6 +26,7 @@ what={
 "interface.second-param":"f(n uint64, x I) called as f(2, S{...}): the conversion is applied to the FIRST argument (uint64__to__I #2), the struct is passed bare",
 "interface.pointer-impl":"an interface implemented with pointer receivers: f(p) emits S__to__I \"p\" but no definition of S__to__I (the scan only recognises struct-typed arguments)",
 "map.commaok-assign":"v, ok = m[k] as an ASSIGNMENT to existing variables (the := form is fine) is emitted as stores of Fst/Snd of something that is not the pair MapGet returns: stuck",
+"generic.recursive":"a generic function that calls itself: the call goes through the recursive binder but still passes the type argument (\"f\" T x (n-1)) although the binder takes only the value parameters (T is a Coq-level parameter of the Definition): the arguments are shifted by one, stuck",
 "variadic":"a variadic function is called with its arguments passed positionally instead of as a slice (stuck)",
 }
 src=open('/verif/harness/goosegen/catalogue.go').read()
